@@ -24,7 +24,11 @@ import plistlib
 
 from harness.core import vloop
 
-RULE = ("PIN sweep: the compared secret at boundary values (0000, 0001, 9999) and random ones, right PIN (typed as int "
+RULE = ("round 4: every documented HAP error code with/without the BackOff item at every TLV reply (thorough: all 14 for "
+        "NN; otherwise the back-off reply and one seed-chosen other); wrong-type containers naming the expected "
+        "keys (plist roots, OPACK pairing data / root, TLV as text body); configuration sweep (DMAP pairing guid and "
+        "remote name shapes x right code / wrong code / missing field; presented name for the other handlers, "
+        "fault-free and wrong PIN); PIN sweep: the compared secret at boundary values (0000, 0001, 9999) and random ones, right PIN (typed as int "
         "and as 4-digit string) and wrong PINs / wrong pairing codes (neighbours, random, junk) for MRP, Companion, "
         "AirPlay-HAP, RAOP-HAP and DMAP (DMAP: all request faults per PIN); "
         "exhaustive: every pairing handler configuration (mrp, companion, companion with stored credentials, "
@@ -33,7 +37,7 @@ RULE = ("PIN sweep: the compared secret at boundary values (0000, 0001, 9999) an
         "wrong PIN, dropped reply, garbage frame/body, each required field missing, disconnect), plus the fault-free "
         "run; non-trivial = a fault was injected after at least one successful reply or the run is fault-free; "
         "initial state: (service.credentials, settings credentials) over {none, A, B}^2 - quick tier: NN and AA in "
-        "full, one fault per await point (alternating connection/pairing class) for NA, AN, AB and one seed-chosen "
+        "full (mrp, airplay-hap: AA only; raop-hap: NN only), one fault per await point (alternating connection/pairing class) for NA, AN, AB and one seed-chosen "
         "other combination; thorough: all nine in full; malformed VALUES of every inner field (empty, proper prefix, "
         "extended; edited in the sealed plaintext and, for identifier / long-term key, reported consistently by the "
         "device); operation sequences on one handler (pin() twice, finish() after a failed finish(), begin() twice; "
@@ -425,11 +429,21 @@ def variants_for(reply, is_proof_reply):
     if reply.tlv is not None:
         out += [("error", "tlv"), ("garbage", "tlv")]
         out += [("missing", f) for f in reply.fields]
+        # every documented HAP error code, alone and with the BackOff (retry delay) item next to it
+        for code in ERROR_CODES:
+            out += [("error", "tlv:%s" % code), ("error", "tlv:%s+backoff" % code)]
+    if reply.proto == "companion" and reply.tlv is not None:
+        # well-formed OPACK of the wrong type where the pairing data / the message dict should be
+        out += [("garbage", "pd:str"), ("garbage", "pd:int"), ("garbage", "pd:array"), ("garbage", "root:array")]
     if reply.proto == "http":
         out.append(("error", "http500"))
+        if reply.tlv is not None:
+            out.append(("garbage", "body:text"))      # the TLV delivered as a text body
         if reply.phase == "plist":
             out.append(("garbage", "body"))
             out += [("missing", f) for f in reply.fields]
+            # well-formed binary plists whose ROOT is not a dict but names the expected keys
+            out += [("garbage", "root:" + t) for t in ("str", "array", "int", "data", "nested")]
     if is_proof_reply:
         out.append(("wrongpin", "-"))
     for field in INNER_FIELDS.get(reply.label, []):
@@ -452,6 +466,11 @@ def variants_for(reply, is_proof_reply):
 
 
 SHAPES = ["empty", "prefix", "extended"]
+ERROR_CODES = ["Unknown", "Authentication", "BackOff", "MaxPeers", "MaxTries", "Unavailable", "Busy"]
+
+
+def is_code_variant(kind, variant):
+    return kind == "error" and str(variant).startswith("tlv:")
 
 
 def is_value_variant(variant):
@@ -508,9 +527,35 @@ def mutate(codec, reply, kind, variant, rng):
     if reply.phase == "plist" and kind == "missing":
         plist = {k: v for k, v in reply.raw[1].items() if k != variant}
         return codec.encode(reply.raw[0], body=plistlib.dumps(plist, fmt=plistlib.FMT_BINARY))
+    if reply.phase == "plist" and kind == "garbage" and variant.startswith("root:"):
+        keys = sorted(reply.raw[1])
+        root = {"str": "pairing failed: " + " does not match ".join(keys), "array": ["invalid"] + keys, "int": 7,
+                "data": " ".join(keys).encode(), "nested": [dict(reply.raw[1])]}[variant[5:]]
+        return codec.encode(reply.raw[0], body=plistlib.dumps(root, fmt=plistlib.FMT_BINARY))
+    if kind == "garbage" and variant == "body:text":
+        resp = reply.raw[0]
+        from pyatv.support.http import HttpResponse, format_response
+        headers = {k: v for k, v in dict(resp.headers).items() if k.lower() not in ("content-length", "content-type")}
+        headers["Content-Type"] = "text/plain"
+        return format_response(HttpResponse(resp.protocol, resp.version, resp.code, resp.message, headers,
+                                            "pairing data: " + binascii.hexlify(resp.body).decode()))
+    if kind == "garbage" and variant in ("pd:str", "pd:int", "pd:array", "root:array"):
+        ftype, payload = reply.raw
+        names = ["salt", "publickey", "proof", "encrypteddata"]
+        if variant == "root:array":
+            return ("frame", ftype, ["_pd"] + names)
+        wrong = {"pd:str": " ".join(names), "pd:int": 6, "pd:array": names}[variant]
+        return ("frame", ftype, dict(payload, _pd=wrong))
     seqno = reply.tlv.get(int(TlvValue.SeqNo), b"\x00")
     if kind == "error":
-        return codec.with_tlv(reply, write_tlv({TlvValue.SeqNo: seqno, TlvValue.Error: bytes([ErrorCode.Authentication])}))
+        code, backoff = "Authentication", False
+        if variant.startswith("tlv:"):
+            code, _, extra = variant[4:].partition("+")
+            backoff = extra == "backoff"
+        items = {TlvValue.SeqNo: seqno, TlvValue.Error: bytes([ErrorCode[code]])}
+        if backoff:
+            items[TlvValue.BackOff] = rng.randrange(1, 600).to_bytes(2, "little")
+        return codec.with_tlv(reply, write_tlv(items))
     if kind == "garbage":
         return codec.with_tlv(reply, _garbage_tlv(rng, [k for k in reply.tlv if k != int(TlvValue.SeqNo)]))
     if kind == "missing":
@@ -734,7 +779,7 @@ def _err_class(exc):
     return "other:" + type(exc).__name__
 
 
-async def _pair_client(name, prior, fault, world, loop, pins=None, ops=None):
+async def _pair_client(name, prior, fault, world, loop, pins=None, ops=None, config=None):
     """begin(); pin(); finish() on the real handler obtained from pyatv.pair()."""
     import pyatv
     from pyatv.conf import AppleTV, ManualService
@@ -775,7 +820,15 @@ async def _pair_client(name, prior, fault, world, loop, pins=None, ops=None):
         p.start()
     handler = None
     try:
-        handler = await pyatv.pair(conf, protocol, loop, storage=storage)
+        kwargs = {}
+        if config and "name" in config:
+            # the name the handler presents itself with: `name=` for Companion / AirPlay / RAOP,
+            # settings.info.name for MRP (sent in DEVICE_INFORMATION)
+            if name == "mrp":
+                settings.info.name = config["name"]
+            else:
+                kwargs["name"] = config["name"]
+        handler = await pyatv.pair(conf, protocol, loop, storage=storage, **kwargs)
         _instrument(service, "credentials", world.events, "storeService")
         _instrument(getattr(settings.protocols, slot), "credentials", world.events, "storeSettings")
         _instrument(handler, "_has_paired", world.events, "setPaired")
@@ -829,13 +882,13 @@ async def _pair_client(name, prior, fault, world, loop, pins=None, ops=None):
     return obs
 
 
-def run_one(name, prior, fault, rng, pins=None, ops=None):
+def run_one(name, prior, fault, rng, pins=None, ops=None, config=None):
     """Execute one case on the real code; returns the observation dict (never raises for
     exceptions of the code under test).  `pins` = (PIN of the device as 4-digit string, PIN
     handed to handler.pin()) or None for the fake devices' defaults; for DMAP
     (PIN handed to handler.pin(), pairing code the device sends: ("pin", n) | ("raw", text))."""
     if name == "dmap":
-        return run_dmap(prior, fault, rng, pins, ops)
+        return run_dmap(prior, fault, rng, pins, ops, config)
     codec = CONFIGS[name][2]()
     world = World(codec, fault, rng)
     loop = PipeLoop(world)
@@ -843,7 +896,7 @@ def run_one(name, prior, fault, rng, pins=None, ops=None):
 
     async def main():
         loop.listeners[PORT] = _peer_factory(name, loop, state_box, pins[0] if pins else None)
-        return await _pair_client(name, prior, fault, world, loop, pins, ops)
+        return await _pair_client(name, prior, fault, world, loop, pins, ops, config)
 
     logging.disable(logging.CRITICAL)
     unhook = _hook_sealing(world) if world.inner else (lambda: None)
@@ -923,10 +976,13 @@ class _Device(asyncio.Protocol):
         self.done.set()
 
 
-def _dmap_code(guid, pin):
+def _dmap_code(guid, pin, published=None):
+    """pairing code as the device computes it: from the `Pair` value the handler published over
+    Zeroconf (or, without it, from the guid the handler was configured with)"""
     import hashlib
-    merged = guid[2:].upper() + "".join(ch + "\x00" for ch in str(pin).zfill(4))
-    return hashlib.md5(merged.encode()).hexdigest().upper()
+    pair = published if published is not None else guid[2:].upper()
+    merged = pair + "".join(ch + "\x00" for ch in str(pin).zfill(4))
+    return hashlib.md5(merged.encode("utf-8", "surrogatepass")).hexdigest().upper()
 
 
 def dmap_variants():
@@ -947,9 +1003,10 @@ async def _dmap_device(loop, world, port, fault, rng, pins=None):
     link = Link(loop, port, device, factory(), world)
     world.links.append(link)
     link.start()
-    code = _dmap_code(DMAP_GUID, 4321 if kind == "wrongpin" else DMAP_PIN)
+    published = getattr(world, "dmap_pair", None)
+    code = _dmap_code(DMAP_GUID, 4321 if kind == "wrongpin" else DMAP_PIN, published)
     if pins is not None:
-        code = _dmap_code(DMAP_GUID, pins[1][1]) if pins[1][0] == "pin" else pins[1][1]
+        code = _dmap_code(DMAP_GUID, pins[1][1], published) if pins[1][0] == "pin" else pins[1][1]
     query = {"pairingcode": code, "servicename": "c08device"}
     if kind == "missing":
         query.pop(variant)
@@ -977,7 +1034,7 @@ async def _dmap_device(loop, world, port, fault, rng, pins=None):
     return status
 
 
-def run_dmap(prior, fault, rng, pins=None, ops=None):
+def run_dmap(prior, fault, rng, pins=None, ops=None, config=None):
     codec = type("DmapCodec", (), {"name": "dmap", "wire": True, "decode": staticmethod(lambda d: Reply("dmap", "http-response"))})()
     world = World(codec, None, rng)     # the pipe itself injects nothing; the device script does
     world.inverted = True
@@ -1002,8 +1059,10 @@ def run_dmap(prior, fault, rng, pins=None, ops=None):
             getattr(settings.protocols, other).credentials = "untouched-" + other
         zeroconf = ZeroconfStub([])
         obs = {"prior": old, "prior_settings": old_settings, "slot": "dmap"}
+        config_ = dict({"pairing_guid": DMAP_GUID, "name": "c08 remote"}, **(config or {}))
         handler = await pyatv.pair(conf, Protocol.DMAP, loop, storage=storage, zeroconf=zeroconf,
-                                   pairing_guid=DMAP_GUID, name="c08 remote", addresses=["127.0.0.1"])
+                                   pairing_guid=config_["pairing_guid"], name=config_["name"],
+                                   addresses=config_.get("addresses", ["127.0.0.1"]))
         try:
             _instrument(service, "credentials", world.events, "storeService")
             _instrument(settings.protocols.dmap, "credentials", world.events, "storeSettings")
@@ -1014,6 +1073,9 @@ def run_dmap(prior, fault, rng, pins=None, ops=None):
             try:
                 await handler.begin()
                 world.events.append("listen")
+                if zeroconf.registered_services:
+                    props = zeroconf.registered_services[0].properties
+                    world.dmap_pair = (props.get(b"Pair") or b"").decode("utf-8", "surrogatepass")
             except Exception as ex:
                 exc, where = ex, "begin"
             if exc is None and ops is not None:
@@ -1024,7 +1086,7 @@ def run_dmap(prior, fault, rng, pins=None, ops=None):
                         if op[0] == "pin":
                             handler.pin(op[1])
                         elif op[0] == "request":
-                            port = zeroconf.registered_services[0].port if zeroconf.registered_services else None
+                            port = zeroconf.registered_services[0].port if zeroconf.registered_services else next(iter(loop.listeners), None)
                             status = await _dmap_device(loop, world, port, None, rng, (None, op[1]))
                         elif op[0] == "finish":
                             await handler.finish()
@@ -1036,7 +1098,7 @@ def run_dmap(prior, fault, rng, pins=None, ops=None):
                                   "settings": settings.protocols.dmap.credentials})
             elif exc is None:
                 handler.pin(DMAP_PIN if pins is None else pins[0])
-                port = zeroconf.registered_services[0].port if zeroconf.registered_services else None
+                port = zeroconf.registered_services[0].port if zeroconf.registered_services else next(iter(loop.listeners), None)
                 obs["device"] = await _dmap_device(loop, world, port, fault, rng, pins)
                 obs["paired_mid"] = bool(handler.has_paired)
                 obs["svc_mid"] = service.credentials
@@ -1283,7 +1345,16 @@ def run(ctx, only=None):
             if only is None and not ctx.thorough and prior not in ("NN", "AA", "NA", "AN", "AB", extra):
                 continue
             full = ctx.thorough or prior in ("NN", "AA")
+            if not ctx.thorough and (name, prior) in (("raop-hap", "AA"), ("airplay-hap", "NN"), ("mrp", "NN")):
+                # quick tier: same script enumerated in full with the other initial state (mrp AA,
+                # airplay-hap AA) / by the same handler class (raop-hap NN): one fault per await point
+                full = False
             script = script_name(name, prior)
+            if only is not None and only.get("config") is not None:
+                fault = None if only["index"] is None else (only["index"], only["kind"], only["variant"])
+                pins = only.get("pins")
+                evaluate_config(ctx, name, prior, only["config"], fault, tuple(pins) if pins else None)
+                continue
             if only is not None and only.get("ops") is not None:
                 ops = [tuple(tuple(x) if isinstance(x, list) else x for x in o) for o in only["ops"]]
                 obs = run_one(name, prior, None, ctx.rng.fork("seq", name, repr(ops)), ops=ops)
@@ -1308,6 +1379,7 @@ def run(ctx, only=None):
             # --- fault-free run (also the recon of the fault space): trace, applicability, success
             case, obs = evaluate(ctx, name, prior, None, None)
             base, faults = fault_space(name, prior, None, base=obs)
+            BASES[(name, script_name(name, prior))] = base
             ctx.case(["free", name, prior], True, sample={"handler": name, "prior": prior, "events": obs.get("events")})
             ctx.note("handler:" + name)
             ctx.note("initial:" + prior)
@@ -1330,8 +1402,38 @@ def run(ctx, only=None):
                 # faults inside sealed sub-messages: quick tier with stored credentials (AA) only,
                 # thorough tier for the initial states NN, AA, AB, BA
                 faults = [f for f in faults if not str(f[2]).startswith(("inner", "device:"))]
+            if not ctx.thorough and prior == "NN":
+                # wrong-type containers: quick tier with stored credentials (AA) only
+                faults = [f for f in faults if not str(f[2]).startswith(("root:", "pd:", "body:text"))]
+            if not ctx.thorough:
+                # quick tier: of the stale-plaintext value edits one seed-chosen shape per inner field
+                vrng = ctx.rng.fork("shapes", name, prior)
+                shape_of = {}
+                def keep_shape(f):
+                    v = str(f[2])
+                    if not (v.startswith("inner:") and "=" in v):
+                        return True
+                    field = (f[0], v.split("=")[0])
+                    if field not in shape_of:
+                        shape_of[field] = vrng.choice(SHAPES)
+                    return v.endswith("=" + shape_of[field])
+                faults = [f for f in faults if keep_shape(f)]
+            # error codes x BackOff item: all 14 per TLV reply in the thorough tier for NN and AA; otherwise
+            # per TLV reply the documented back-off reply (Error=BackOff + BackOff item) and one seed-chosen other
+            if not (ctx.thorough and prior == "NN"):
+                crng = ctx.rng.fork("codes", name, prior)
+                keep = []
+                for i in sorted({f[0] for f in faults if is_code_variant(f[1], f[2])}):
+                    codes = [f for f in faults if f[0] == i and is_code_variant(f[1], f[2])]
+                    if ctx.thorough or prior == "AA":
+                        keep.append(next(f for f in codes if f[2] == "tlv:BackOff+backoff"))
+                        if ctx.thorough or (i + crng.randrange(2)) % 2 == 0:
+                            keep.append(crng.choice([f for f in codes if f[2] != "tlv:BackOff+backoff"]))
+                    elif prior != "NN":
+                        keep.append(crng.choice(codes))
+                faults = [f for f in faults if not is_code_variant(f[1], f[2]) or f in keep]
             for fault in (faults if full else reduced_faults(ctx, name, prior, faults)):
-                nrep = reps if (fault[1] == "garbage" and full) else 1
+                nrep = reps if (fault[1] == "garbage" and full and fault[2] in ("frame", "tlv", "body", "inner")) else 1
                 for rep in range(nrep):
                     case, obs = evaluate(ctx, name, prior, fault, base, rep)
                     ctx.case([name, prior, list(fault), rep], fault[0] >= 2 or name == "dmap",
@@ -1345,6 +1447,7 @@ def run(ctx, only=None):
         return
     pin_sweep(ctx, lines, pending)
     sequence_sweep(ctx, lines, pending)
+    config_sweep(ctx, lines, pending)
     # --- error_handler itself: what class reaches the caller for each kind of inner failure
     for kind, cls in probe_error_handler():
         lines.append("errclass handler " + kind)
@@ -1361,6 +1464,16 @@ def run(ctx, only=None):
         ctx.validated()
         if model != impl:
             ctx.disagree(dict(case, line=line), impl, ans, where=what)
+
+
+BASES = {}     # (handler, script) -> observation of a fault-free run (reply labels), filled by run()
+
+
+def recon(ctx, name, prior):
+    key = (name, script_name(name, prior))
+    if key not in BASES:
+        BASES[key] = run_one(name, prior, None, ctx.rng.fork(name, prior, "recon"))
+    return BASES[key]
 
 
 PIN_HANDLERS = ["mrp", "companion", "airplay-hap", "raop-hap"]   # legacy AirPlay: recorded transcript, one PIN
@@ -1399,7 +1512,7 @@ def pin_sweep(ctx, lines, pending):
     for name in PIN_HANDLERS:
         for prior in (("NN", "AA", "BA") if ctx.thorough else ("AB",)):
             script = script_name(name, prior)
-            base = run_one(name, prior, None, ctx.rng.fork(name, prior, "recon"))
+            base = recon(ctx, name, prior)
             proof = next((i for i, r in enumerate(base.get("replies", []), 1) if PROOF_REPLY.get(r.label)), None)
             if proof is None:
                 ctx.disagree({"handler": name}, "no proof reply in the real exchange", "proof index expected", where="pins")
@@ -1437,6 +1550,85 @@ def pin_sweep(ctx, lines, pending):
                 ctx.note("pin:" + ("boundary" if pin in (0, 1, 9999) else "other") + (":" + fault[1] if fault else ":right"))
                 lines.append(line)
                 pending.append(("run", case, canon_obs(obs)))
+
+
+# ------------------------------------------------------------------------------------------
+# handler configuration values
+# ------------------------------------------------------------------------------------------
+CONFIG_NAMES = ["\u00dcn\u00ef\u00a9\u00f8d\u00e9 \U0001f4fa \u540d\u524d", "", "x" * 300, "bad\udc80name", "a\x00b", "caf\u00e9\u0301 \u202eevil"]
+CONFIG_GUIDS = [None, "0x0000000000000001", "0xFFFFFFFFFFFFFFFF", "0x0123456789ABCDEF0123456789ABCDEF",
+                "0xNOTHEXNOTHEX0000", "0xabcdef0123456789", "0x", "0123456789ABCDEF", "0x-000000000000001"]
+
+
+def evaluate_config(ctx, name, prior, config, fault, pins=None):
+    """A run with an unusual but accepted configuration value.  Whether the exchange succeeded
+    is read off the exchange itself (DMAP: the device got 200; others: no exception), then the
+    property is applied: succeeded -> stored in both places and reported; failed -> raised,
+    nothing stored, not reported.  An exception of begin() before any traffic (the configuration
+    itself was refused) is not an exchange failure: only the state is judged."""
+    obs = run_one(name, prior, fault, ctx.rng.fork("config", name, repr(config), repr(fault)), pins, None, config)
+    label = "request" if name == "dmap" else "config"
+    case = {"handler": name, "prior": prior, "index": fault[0] if fault else None, "kind": fault[1] if fault else None,
+            "variant": fault[2] if fault else None, "message": label, "rep": 0,
+            "config": {k: v for k, v in config.items()}}
+    if pins is not None:
+        case["pins"] = [pins[0], list(pins[1]) if isinstance(pins[1], (tuple, list)) else pins[1]]
+    if name == "dmap":
+        exchange_ok = fault is None and str(obs.get("device", "")).split(" ")[1:2] == ["200"]
+    else:
+        exchange_ok = fault is None and obs.get("err") is None and not obs.get("harness_error")
+    events = obs.get("events") or []
+    refused = obs.get("where") == "begin" and not any(e in ("connect", "recv", "fault", "send") for e in events)
+    pseudo = None if exchange_ok else (fault or (0, "config", "-"))
+    o2 = dict(obs, injected=True)
+    summary = {k: obs.get(k) for k in ("err", "exc_name", "exc_text", "where", "paired", "svc", "prior", "prior_settings", "device")}
+    for tag, text in oracle(name, o2, pseudo):
+        if refused and (tag.startswith("error-class") or tag == "no-error-raised"):
+            continue
+        ctx.fail("%s:%s:%s:%s" % (name, label, (fault[1] if fault else "config"), tag), case, summary,
+                 "exchange succeeded -> credentials in service and settings, has_paired; failed -> pairing/connection "
+                 "error, nothing stored, has_paired false", text + " [configuration %r]" % (config,))
+    return case, obs, exchange_ok
+
+
+def config_sweep(ctx, lines, pending):
+    prior = "AB"
+    rng = ctx.rng.fork("config")
+    # --- DMAP: pairing guid and remote name of every accepted shape, right code / wrong code / missing field
+    configs = [{"pairing_guid": g} for g in CONFIG_GUIDS] + [{"name": n} for n in CONFIG_NAMES]
+    configs += [{"name": n, "addresses": []} for n in CONFIG_NAMES[2:4]]       # nothing to publish on
+    configs += [{"pairing_guid": CONFIG_GUIDS[3], "name": CONFIG_NAMES[0]}]
+    for config in configs:
+        for fault in (None, (0, "wrongpin", "-"), (0, "missing", "servicename")):
+            pins = (0, ("pin", 0)) if fault is None and rng.chance(0.5) else None
+            case, obs, ok = evaluate_config(ctx, "dmap", prior, config, fault, pins)
+            ctx.case(["config", "dmap", repr(config), list(fault or ())], True,
+                     sample={"config": repr(config), "device_got": obs.get("device"), "paired": obs.get("paired")})
+            ctx.note("config:dmap:" + ("ok" if ok else "failed"))
+            if obs.get("where") == "begin":
+                continue                                  # configuration refused before any exchange
+            status = str(obs.get("device", "")).split(" ")[1:2]
+            word = ("r1" if fault is None else "r2" if fault[1] == "wrongpin" else "rx")
+            if fault is None and status != ["200"]:
+                word = "b1"                               # right code, answer could not be built
+            lines.append("dmapseq p1,%s,f" % word)
+            stored = obs.get("svc") not in (obs.get("prior"),) and obs.get("svc") == (obs.get("settings") or {}).get("dmap")
+            pending.append(("dmapseq", case, "%d %d %s" % (bool(obs.get("paired")), stored, "1" if status == ["200"] else "0")))
+    # --- the others: the name the handler presents itself with (kwarg `name`; MRP: settings.info.name)
+    for name in [h for h in HANDLERS if h != "dmap"]:
+        names = list(CONFIG_NAMES) if ctx.thorough else [CONFIG_NAMES[3], rng.choice([n for n in CONFIG_NAMES if n != CONFIG_NAMES[3]])]
+        for i, n in enumerate(names):
+            plans = [None]
+            if ctx.thorough or i == 1:
+                base = recon(ctx, name, prior)
+                proof = next((j for j, r in enumerate(base.get("replies", []), 1) if PROOF_REPLY.get(r.label)), None)
+                if proof:
+                    plans.append((proof, "wrongpin", "-"))
+            for fault in plans:
+                case, obs, ok = evaluate_config(ctx, name, prior, {"name": n}, fault)
+                ctx.case(["config", name, n, list(fault or ())], True,
+                         sample={"handler": name, "name": repr(n)[:40], "raised": obs.get("exc_name"), "paired": obs.get("paired")})
+                ctx.note("config:%s:%s" % (name, "ok" if ok else "failed"))
 
 
 # ------------------------------------------------------------------------------------------
@@ -1587,5 +1779,7 @@ def match_finding(failure, entry):
     if len(parts) < 4:
         return False
     handler, message, kind, tag = parts[0], parts[1], parts[2], ":".join(parts[3:])
-    return (handler == m.get("handler") and message == m.get("message") and kind in m.get("kinds", [])
-            and tag == m.get("problem"))
+    # "config" = the exchange failed because the handler's own configuration made its answer
+    # unencodable: the same finding (DMAP never raises), whatever made the exchange fail
+    return (handler == m.get("handler") and message == m.get("message")
+            and (kind in m.get("kinds", []) or kind == "config") and tag == m.get("problem"))
